@@ -158,6 +158,9 @@ pub const CALLS_SLACK: usize = 16;
 /// steps of the validator's recursive analyses per byte of text (largest ratio measured on the repository's
 /// grammars and a libFuzzer corpus: 3; a chain of 290 rules each looking down the whole chain: ~10)
 pub const VALIDATOR_STEPS_PER_BYTE: usize = 150;
+/// expression-traversal steps of the optimizer per byte (x counts^2): largest measured ratio 5 (sql.pest); the
+/// restorer's quadratic behaviour in a count reaches 25 per byte per count at count 128
+pub const OPTIMIZER_STEPS_PER_BYTE: usize = 64;
 
 /// Some(budget) when parsing `text` as a grammar needs more combinator calls than the linear budget.
 pub fn call_budget_exceeded(text: &str) -> Option<usize> {
@@ -214,8 +217,13 @@ pub fn check_text(ctx: &mut Ctx, text: &str, origin: &str) -> Result<(), Fail> {
         }
         // the validator's recursive analyses get a step budget of their own (cfg hook in meta/src/validator.rs)
         pest_meta::validator::verif::reset(VALIDATOR_STEPS_PER_BYTE * (text.len() + CALLS_SLACK));
+        // ... and so do the optimizer's expression traversals (cfg hook in meta/src/optimizer/mod.rs and ast.rs);
+        // the restorer is quadratic in a repetition count, hence counts^2
+        let counts = unroll_chain(text).0 as usize;
+        pest_meta::optimizer::verif::reset_steps(OPTIMIZER_STEPS_PER_BYTE * (text.len() + CALLS_SLACK) * counts * counts);
         let optimized = pest_meta::parse_and_optimize(text);
         pest_meta::validator::verif::reset(usize::MAX);
+        pest_meta::optimizer::verif::reset_steps(usize::MAX);
         match optimized {
             Ok((builtins, rules)) => {
                 let _ = builtins.len();
@@ -259,6 +267,16 @@ pub fn check_text(ctx: &mut Ctx, text: &str, origin: &str) -> Result<(), Fail> {
         }
     });
     pest_meta::validator::verif::reset(usize::MAX);
+    pest_meta::optimizer::verif::reset_steps(usize::MAX);
+    if matches!(&r, Err(p) if p.contains(pest_meta::optimizer::verif::LIMIT_MESSAGE)) {
+        ctx.class(&format!("{origin}:optimizer-step-budget-exceeded"));
+        return Err(Fail::new(
+            // stacked `+` (finding D23) shows up here first: the copies are made by a traversal
+            if unroll_chain(text).1 >= 2 { "c09:optimized-size-budget-exceeded:stacked-plus" } else { "c09:optimizer-step-budget-exceeded" },
+            format!("optimizing this {}-byte text needs more than {OPTIMIZER_STEPS_PER_BYTE}*(len+{CALLS_SLACK})*counts^2 expression-traversal steps: a pass revisits sub-expressions or rules once per path ({origin}):\n{text}", text.len()),
+            case,
+        ));
+    }
     if matches!(&r, Err(p) if p.contains(pest_meta::validator::verif::LIMIT_MESSAGE)) {
         ctx.class(&format!("{origin}:validator-step-budget-exceeded"));
     }
@@ -550,7 +568,7 @@ pub fn run(ctx: &mut Ctx) {
     lap(ctx, "repeated-open-construct");
     // (e) reference lattices: r_i refers to r_(i+1) twice (or to r_(i+1) and r_(i+2)) under a chosen shape, so the
     // number of reference paths doubles per level while the text grows by one line
-    const SHAPES: [&str; 10] = ["X | Y", "X ~ Y", "!X ~ Y", "&X ~ Y", "X? ~ Y", "(X | Y)*", "(X ~ Y)+", "X* ~ Y", "(X | \"q\") ~ Y", "PUSH(X) ~ Y"];
+    const SHAPES: [&str; 12] = ["(X ~ Y)?", "(X ~ Y) | \"q\"", "X | Y", "X ~ Y", "!X ~ Y", "&X ~ Y", "X? ~ Y", "(X | Y)*", "(X ~ Y)+", "X* ~ Y", "(X | \"q\") ~ Y", "PUSH(X) ~ Y"];
     const LEAVES: [&str; 6] = ["\"a\"", "\"\"", "!\"a\"", "\"a\"?", "ANY", "\"a\"*"];
     let strat = (proptest::collection::vec(0..SHAPES.len(), 1..28), 0..LEAVES.len(), any::<bool>(), 0..4usize).prop_map(|(shapes, leaf, skip, modifier)| {
         let n = shapes.len();
@@ -595,7 +613,7 @@ pub fn replay(case: &Value) -> Result<(), Fail> {
 
 pub const DEF: CheckDef = CheckDef {
     id: "C09",
-    rule: "Texts, not grammars: (a1) chunks of the repository's .pest files mutated at token level (delete/duplicate/swap/replace/insert from a dictionary of meta-grammar tokens incl. out-of-range numbers, malformed and out-of-range escapes, lone quotes, non-ASCII; truncation at a token or inside one; numbers replaced by 0 / 2^31 +- 1 / 2^32 +- 1 / 2^64) and every byte-truncation of the small chunks; (a2) the same mutations of canonical printings of generated valid grammars; (b) random token soup over that dictionary with random gaps/comments; (c) the same soup wrapped as `r0 = { ... }`; (d) one or two unterminated constructs (comment/paren/bracket/string/PUSH/PEEK/repetition openers, dangling operators) repeated 1..60 times; (e) reference lattices: 1..28 rules r_i = { shape(r_(i+1), r_(i+1 or i+2)) } over ten shapes (choice, sequence, predicates, optionals, repetitions, PUSH) and six leaves; (f) postfix towers: one operand under 1..20 stacked postfix operators (+ * ? {n} {n,m} {,m} {n,}), flat or parenthesised. Stated bounds: text <= 4 KiB, bracket nesting <= 200, along the deepest chain of nested postfix operators the product of the in-range repetition counts <= 128 and that product x text length <= 64 KiB (the unroller copies the repeated expression, and the restorer pass is cubic in a count applied to a self-referential expression: 800 -> 260 s), and at most 14 stacked `+` (finding D23); larger cases are filtered before the call and counted under excluded_by_construction. Oracle: (time) the syntactic parse stays within 200*(len+16) combinator calls, enforced with pest's own call limit, and a text over budget is attributed by re-running it with every `/*` blanked, the validator's recursive analyses stay within 150*(len+16) steps (cfg hook with a step limit), and the optimized rules render to at most 64*(len+16)*counts bytes; (totality) parse_and_optimize and generator::docs::consume return under catch_unwind (worker survival = no abort); on Err the list is non-empty, every location lies in 0..=len on char boundaries with start <= end, Display and renamed_rules(rename_meta_rule) render; on Ok Display of every optimized expression renders. Non-trivial = the text gets past the meta parser (reaches consumption/validation) or its first error lies within 12 bytes of the end; distinct = distinct text.",
+    rule: "Texts, not grammars: (a1) chunks of the repository's .pest files mutated at token level (delete/duplicate/swap/replace/insert from a dictionary of meta-grammar tokens incl. out-of-range numbers, malformed and out-of-range escapes, lone quotes, non-ASCII; truncation at a token or inside one; numbers replaced by 0 / 2^31 +- 1 / 2^32 +- 1 / 2^64) and every byte-truncation of the small chunks; (a2) the same mutations of canonical printings of generated valid grammars; (b) random token soup over that dictionary with random gaps/comments; (c) the same soup wrapped as `r0 = { ... }`; (d) one or two unterminated constructs (comment/paren/bracket/string/PUSH/PEEK/repetition openers, dangling operators) repeated 1..60 times; (e) reference lattices: 1..28 rules r_i = { shape(r_(i+1), r_(i+1 or i+2)) } over ten shapes (choice, sequence, predicates, optionals, repetitions, PUSH) and six leaves; (f) postfix towers: one operand under 1..20 stacked postfix operators (+ * ? {n} {n,m} {,m} {n,}), flat or parenthesised. Stated bounds: text <= 4 KiB, bracket nesting <= 200, along the deepest chain of nested postfix operators the product of the in-range repetition counts <= 128 and that product x text length <= 64 KiB (the unroller copies the repeated expression, and the restorer pass is cubic in a count applied to a self-referential expression: 800 -> 260 s), and at most 14 stacked `+` (finding D23); larger cases are filtered before the call and counted under excluded_by_construction. Oracle: (time) the syntactic parse stays within 200*(len+16) combinator calls, enforced with pest's own call limit, and a text over budget is attributed by re-running it with every `/*` blanked, the validator's recursive analyses stay within 150*(len+16) steps and the optimizer's expression traversals within 64*(len+16)*counts^2 steps (cfg hooks with step limits), and the optimized rules render to at most 64*(len+16)*counts bytes; (totality) parse_and_optimize and generator::docs::consume return under catch_unwind (worker survival = no abort); on Err the list is non-empty, every location lies in 0..=len on char boundaries with start <= end, Display and renamed_rules(rename_meta_rule) render; on Ok Display of every optimized expression renders. Non-trivial = the text gets past the meta parser (reaches consumption/validation) or its first error lies within 12 bytes of the end; distinct = distinct text.",
     assumptions: &["'bounded time' is read as a linear budget of combinator calls for the meta parser (200 per byte; largest ratio measured on texts without the known blow-up: 28); validation and optimisation time is bounded by the stated size bounds only, and a watchdog kill there is reported as inconclusive (exit 2), never as a violation"],
     floor: |t| t.pick(50_000, 500_000),
     shards: |_| 16,
